@@ -26,3 +26,4 @@ import DateutilVerif.Properties.TzGen   -- translator tie (wt-iso): obligations 
 #print axioms C04.gen_eq_model_range_fromutc
 #print axioms C04.gen_eq_model_range_utcoffset
 #print axioms C04.roundtrip_gen
+#print axioms C04.gen_eq_model_tzinfo_fromutc
